@@ -28,14 +28,24 @@ class C12(CFGProp):
     ASSUMPTIONS = ["finiteness oracle: growing-cycle criterion, cross-checked by the length-set criterion in selftest"]
 
     def layers(self, tier, seed):
-        return cfg_layers(tier, adversarial=())
+        from ..engine import Layer
+        from ..gen import cfg as G
+        extra = [Layer("three productions of length 3 over one variable", G.long_triples, rep=G.is_rep,
+                       policies=["natural@plain", "1@plain"]),
+                 Layer("suffix pair + one short production", G.suffix_triples, policies=["natural@plain"])]
+        return cfg_layers(tier, adversarial=(), extra_quick=extra, extra_thorough=extra)
 
     def reference(self, case):
         r = self.ref_gram(case, "plain")
         finite = r.is_finite()
         v, t, prods = case
         maxb = max([len(b) for _, b in prods] + [1])
-        full = r.lang_upto(max(4, maxb ** v)) if finite else None
+        full = None
+        if finite:
+            longest = max(r.word_lengths(maxb ** v + 1) | {0})
+            # the whole language is enumerated when its longest word has <= 8 letters (otherwise the unbounded
+            # enumeration is not compared for this grammar: 2^9+ words)
+            full = r.lang_upto(max(4, longest)) if longest <= 8 else None
         return {"empty": r.is_empty(), "finite": finite, "gen": r.generating(), "null": r.nullable(),
                 "reach": r.reachable(), "lang4": r.lang_upto(4), "all": full}
 
@@ -73,12 +83,25 @@ class C12(CFGProp):
             r = ctx.collect(obj.get_words, n, limit=len(want) + 3)
             if ctx.returns(r, "C12.words.bounded", n=n):
                 self._cmp(ctx, "C12.words.bounded", r.value, want, n=n)
-        if ref["finite"]:
+        if ref["finite"] and ref["all"] is not None:
             g = self._fresh(ctx, case, scheme)
             want = ref["all"]
             r = ctx.collect(g.get_words, limit=len(want) + 3)
             if ctx.returns(r, "C12.words.unbounded"):
                 self._cmp(ctx, "C12.words.unbounded", r.value, want, n=-1)
+        # the same queries in sequence on ONE object (an analysis cached by one query must not spoil the next)
+        g = self._fresh(ctx, case, scheme)
+        for name, meth, want in (("is_empty", "is_empty", ref["empty"]), ("generating", "get_generating_symbols", ref["gen"]),
+                                 ("nullable", "get_nullable_symbols", ref["null"]), ("is_finite", "is_finite", ref["finite"]),
+                                 ("reachable", "get_reachable_symbols", ref["reach"]), ("is_empty", "is_empty", ref["empty"])):
+            r = ctx.call(getattr(g, meth))
+            if ctx.returns(r, "C12." + name, object="shared"):
+                got = r.value if isinstance(want, bool) else symset(r.value)
+                ctx.expect(got == want, "C12." + name, object="shared", got=repr(got)[:200], want=repr(want)[:200])
+        want = {w for w in ref["lang4"] if len(w) <= 3}
+        r = ctx.collect(g.get_words, 3, limit=len(want) + 3)
+        if ctx.returns(r, "C12.words.bounded", n=3, object="shared"):
+            self._cmp(ctx, "C12.words.bounded", r.value, want, n=3, object="shared")
 
     @staticmethod
     def _cmp(ctx, clause, got, want, **kw):
